@@ -350,6 +350,38 @@ func sameLoad(a, b ssa.Value) bool {
 	return false
 }
 
+// crewQueue finds the pending queue of ProcessMsg: the slice variable (web)
+// whose element 0 is taken inside a loop.
+type crewQueue struct {
+	web  *sliceWeb
+	q    ssa.Value      // a member of the queue's web
+	head *ssa.IndexAddr // &pending[0]
+	loop *flow.Loop     // the dequeue loop
+}
+
+func findCrewQueue(pm *ssa.Function) *crewQueue {
+	w := newSliceWeb(pm)
+	loops := flow.Loops(pm)
+	var out *crewQueue
+	ssau.Instrs(pm, func(in ssa.Instruction) {
+		ia, ok := in.(*ssa.IndexAddr)
+		if !ok || out != nil {
+			return
+		}
+		sl, isSl := ia.X.Type().Underlying().(*types.Slice)
+		if !isSl || !types.IsInterface(sl.Elem()) {
+			return
+		}
+		L := flow.InnermostLoop(loops, ia.Block())
+		if L == nil {
+			return
+		}
+		// the same web must be re-sliced inside the loop or tested by the loop condition
+		out = &crewQueue{web: w, q: ia.X, head: ia, loop: L}
+	})
+	return out
+}
+
 // c08Crew: sio.ProcessMsg re-queue and report.
 func c08Crew(c *Ctx) {
 	pm := c.fn("sio", "Crew", "ProcessMsg")
@@ -357,119 +389,129 @@ func c08Crew(c *Ctx) {
 		return
 	}
 	c.R.Fn(fname(pm))
-	doEmitted := c.P.Func("core", "Walked", "DoEmitted")
-	// the callback handed to DoEmitted
-	var cb *ssa.Function
-	var cbSite ssa.CallInstruction
-	ssau.Instrs(pm, func(in ssa.Instruction) {
-		ci, ok := in.(ssa.CallInstruction)
-		if !ok || ci.Common().StaticCallee() == nil || ci.Common().StaticCallee() != doEmitted {
-			return
-		}
-		for _, arg := range ci.Common().Args {
-			if mc, ok := arg.(*ssa.MakeClosure); ok {
-				cb = mc.Fn.(*ssa.Function)
-				cbSite = ci
-			}
-		}
-	})
-	if cb == nil {
-		c.R.Break("C08-R5: ProcessMsg does not hand a function literal to Walked.DoEmitted")
+	cq := findCrewQueue(pm)
+	if cq == nil {
+		c.R.Break("C08-R5: cannot find the pending queue of ProcessMsg (no slice of messages indexed inside a loop)")
 		return
 	}
-	c.R.Fn(fname(cb))
-	pd := flow.NewPostDom(cb)
-	appends := 0
-	ssau.Instrs(cb, func(in ssa.Instruction) {
-		call, ok := in.(*ssa.Call)
-		if !ok {
-			return
-		}
-		b, ok := call.Common().Value.(*ssa.Builtin)
-		if !ok || b.Name() != "append" {
-			return
-		}
-		appends++
-		uncond := pd.PostDominates(call.Block(), cb.Blocks[0]) && !flow.InCycle(call.Block())
-		// appended element must be the callback's message parameter
-		elemOK := false
-		if len(call.Common().Args) == 2 {
-			if sl, ok := call.Common().Args[1].(*ssa.Slice); ok {
-				if al, ok := sl.X.(*ssa.Alloc); ok {
-					for _, r := range ssau.Referrers(al) {
-						if ia, ok := r.(*ssa.IndexAddr); ok {
-							for _, r2 := range ssau.Referrers(ia) {
-								if st, ok := r2.(*ssa.Store); ok && len(cb.Params) > 0 && st.Val == ssa.Value(cb.Params[0]) {
-									elemOK = true
-								}
-							}
-						}
-					}
-				}
-			}
-		}
-		c.R.Check(uncond && elemOK, "C08-R5", fmt.Sprintf("ProcessMsg callback:append#%d", appends), c.pos(in), "unconditional append of the emitted message, executed once per call",
-			fmt.Sprintf("append in the per-message callback is conditional, repeated, or does not append the message itself (unconditional=%v, appends-message=%v)", uncond, elemOK))
-	})
-	c.R.Check(appends >= 2, "C08-R5", "ProcessMsg callback:two appends", c.P.Pos(cb.Pos()), "re-queue and report", "expected the callback to re-queue and to report each message")
-	// no early non-nil error return inside the callback (DoEmitted stops at the first error)
-	for _, b := range cb.Blocks {
-		if ret, ok := b.Instrs[len(b.Instrs)-1].(*ssa.Return); ok && len(ret.Results) == 1 {
-			c.R.Check(ssau.IsNilConst(ret.Results[0]), "C08-R5", "ProcessMsg callback:returns nil", c.pos(ret), "callback never stops the iteration", "callback can return an error, which stops DoEmitted and drops later messages")
-		}
-	}
-	// batches are private: slices appended to Result.Emitted are allocated inside the innermost loop containing the DoEmitted call
+	w := cq.web
 	loops := flow.Loops(pm)
-	inner := flow.InnermostLoop(loops, cbSite.Block())
-	if inner == nil {
-		c.R.Break("C08-R5: DoEmitted call is not inside a per-machine loop")
-		return
+	// perMachine: the innermost loop of ProcessMsg around the block, checks that the gathering starts on every trip
+	type gathered struct {
+		ok  bool
+		why string
 	}
-	// find append whose element type is []interface{} (append to [][]interface{})
+	perMachine := func(anchor *ssa.BasicBlock, walked ssa.Value) gathered {
+		if anchor == nil || anchor.Parent() != pm {
+			return gathered{why: "the enumeration of emitted messages does not start in ProcessMsg"}
+		}
+		// the loop over the walkeds: innermost loop containing the anchor whose header is not the anchor itself
+		var L *flow.Loop
+		for _, l := range enclosingLoops(loops, anchor) {
+			if l.Header != anchor {
+				L = l
+				break
+			}
+		}
+		if L == nil || L == cq.loop {
+			return gathered{why: "emitted messages are not gathered inside a loop over the walked machines"}
+		}
+		for _, latch := range L.Latch {
+			if !anchor.Dominates(latch) {
+				return gathered{why: "emitted messages are not gathered for every walked machine"}
+			}
+		}
+		wi, isIn := walked.(ssa.Instruction)
+		if !isIn || !L.Blocks[wi.Block()] {
+			return gathered{why: "the walk whose messages are gathered is not the loop's current machine"}
+		}
+		return gathered{ok: true}
+	}
+	// ---- re-queue: pushes into the pending web inside the dequeue loop
+	requeues := 0
+	for _, ap := range w.appendsInto(cq.q) {
+		inLoop := ap.Parent() != pm || cq.loop.Blocks[ap.Block()]
+		if !inLoop {
+			continue // initial message
+		}
+		requeues++
+		elems, spread := appended(ap)
+		ok, why := false, ""
+		switch {
+		case spread != nil:
+			bi := batchOf(c.P, spread, 0)
+			ok, why = bi.ok, "the re-queued batch "+bi.why
+			if bi.ok {
+				g := perMachine(bi.anchor, bi.walked)
+				ok, why = g.ok, g.why
+				if ok {
+					L := flow.InnermostLoop(loops, ap.Block())
+					if L == nil || !lenGuardOnly(w, spread, ap.Block(), L) {
+						ok, why = false, "the batch is re-queued only conditionally"
+					}
+				}
+			}
+		case len(elems) == 1:
+			src := emittedSource(c.P, elems[0], ap.Block())
+			switch {
+			case !src.isSource:
+				why = "a value other than an emitted message is queued"
+			case !src.once:
+				why = "the emitted message is queued conditionally or repeatedly, or the enumeration can stop early"
+			default:
+				g := perMachine(src.anchor, src.walked)
+				ok, why = g.ok, g.why
+			}
+		default:
+			why = "several values are queued at once"
+		}
+		c.R.Check(ok, "C08-R5", fmt.Sprintf("ProcessMsg:re-queue#%d", requeues), c.pos(ap), "every emitted message of every walked machine is appended to the pending queue exactly once", why)
+	}
+	c.R.Check(requeues == 1, "C08-R5", "ProcessMsg:one re-queue site", c.P.Pos(pm.Pos()), "one append to the pending queue per emitted message", fmt.Sprintf("expected exactly one place that re-queues emitted messages, found %d", requeues))
+	// ---- report: appends to Result.Emitted
 	found := 0
-	ssau.Instrs(pm, func(in ssa.Instruction) {
-		call, ok := in.(*ssa.Call)
-		if !ok {
-			return
-		}
-		b, ok := call.Common().Value.(*ssa.Builtin)
-		if !ok || b.Name() != "append" || call.Type().String() != "[][]interface{}" {
-			return
-		}
-		found++
-		// the appended slice value: element stored into the varargs array
-		var elems []ssa.Value
-		if sl, ok := call.Common().Args[1].(*ssa.Slice); ok {
-			if al, ok := sl.X.(*ssa.Alloc); ok {
-				for _, r := range ssau.Referrers(al) {
-					if ia, ok := r.(*ssa.IndexAddr); ok {
-						for _, r2 := range ssau.Referrers(ia) {
-							if st, ok := r2.(*ssa.Store); ok {
-								elems = append(elems, st.Val)
+	for _, f := range ssau.WithAnon(pm) {
+		ssau.Instrs(f, func(in ssa.Instruction) {
+			call, ok := in.(*ssa.Call)
+			if !ok {
+				return
+			}
+			b, ok := call.Common().Value.(*ssa.Builtin)
+			if !ok || b.Name() != "append" || call.Type().String() != "[][]interface{}" {
+				return
+			}
+			found++
+			elems, spread := appended(call)
+			ok2, why := false, ""
+			if spread != nil || len(elems) != 1 {
+				why = "something other than one batch is reported"
+			} else {
+				bi := batchOf(c.P, elems[0], 0)
+				ok2, why = bi.ok, "the reported batch "+bi.why
+				if bi.ok {
+					g := perMachine(bi.anchor, bi.walked)
+					ok2, why = g.ok, g.why
+				}
+				if ok2 {
+					L := flow.InnermostLoop(loops, call.Block())
+					switch {
+					case call.Parent() != pm || L == nil:
+						ok2, why = false, "the batch is not reported from the per-machine loop"
+					case !lenGuardOnly(w, elems[0], call.Block(), L):
+						ok2, why = false, "a non-empty batch may go unreported"
+					default:
+						for _, o := range bi.origin {
+							oi, isIn := o.(ssa.Instruction)
+							if !isIn || oi.Parent() != pm || !L.Blocks[oi.Block()] {
+								ok2, why = false, fmt.Sprintf("batch storage %s is created outside the per-machine loop (batches of different machines would share memory)", o.Name())
 							}
 						}
 					}
 				}
 			}
-		}
-		ok2 := len(elems) > 0
-		var why []string
-		for _, e := range elems {
-			origins := sliceOrigins(e, map[ssa.Value]bool{})
-			if len(origins) == 0 {
-				ok2 = false
-				why = append(why, "cannot find where the batch storage is created")
-			}
-			for _, al := range origins {
-				in, isIn := al.(ssa.Instruction)
-				if !isIn || !inner.Blocks[in.Block()] {
-					ok2 = false
-					why = append(why, fmt.Sprintf("batch storage %s is created outside the per-machine loop", al.Name()))
-				}
-			}
-		}
-		c.R.Check(ok2, "C08-R5", fmt.Sprintf("ProcessMsg:batch#%d private", found), c.pos(in), "each reported batch is a slice made inside the per-machine loop", strings.Join(why, "; "))
-	})
+			c.R.Check(ok2, "C08-R5", fmt.Sprintf("ProcessMsg:batch#%d reported and private", found), c.pos(in), "each walked machine's emitted messages are reported as one batch made inside the per-machine loop", why)
+		})
+	}
 	if found == 0 {
 		c.R.Break("C08-R5: no append to Result.Emitted found in ProcessMsg")
 	}
